@@ -73,11 +73,15 @@ func (v *ApiValidator) validateControllers() ([]diagnostics.EntityDiagnostic, []
 func (v *ApiValidator) getRouteEntries(controller *metadata.ControllerMeta) []paths.RouteEntry {
 	entries := make([]paths.RouteEntry, 0, len(controller.Receivers))
 
+	// Routes are served and documented under the controller's own @Route prefix - two routes can only
+	// collide (or be told apart) on their full paths
+	controllerRoute := controller.Struct.Annotations.GetFirstValueOrEmpty(annotations.GleeceAnnotationRoute)
+
 	for _, route := range controller.Receivers {
 		entries = append(
 			entries,
 			paths.RouteEntry{
-				Path:   route.Annotations.GetFirstValueOrEmpty(annotations.GleeceAnnotationRoute),
+				Path:   controllerRoute + "/" + route.Annotations.GetFirstValueOrEmpty(annotations.GleeceAnnotationRoute),
 				Method: route.Annotations.GetFirstValueOrEmpty(annotations.GleeceAnnotationMethod),
 				Meta: paths.RouteEntryMeta{
 					Controller: controller,
